@@ -6,8 +6,11 @@
 import json, os, subprocess, sys, tempfile, shutil, re
 ENV = dict(os.environ, GOFLAGS='-mod=mod', GOPROXY='off', GOSUMDB='off', GOTOOLCHAIN='local')
 ROOT = '/verif/seeded'
-def sh(cmd, cwd=None, timeout=2400):
-    p = subprocess.run(cmd, shell=True, cwd=cwd, env=ENV, capture_output=True, text=True, timeout=timeout)
+def sh(cmd, cwd=None, timeout=3600):
+    try:
+        p = subprocess.run(cmd, shell=True, cwd=cwd, env=ENV, capture_output=True, text=True, timeout=timeout)
+    except subprocess.TimeoutExpired as e:
+        return 124, 'TIMEOUT ' + str(e)
     return p.returncode, p.stdout + p.stderr
 def worktree():
     wt = tempfile.mkdtemp(prefix='wt-seed-', dir='/tmp'); os.rmdir(wt)
